@@ -361,6 +361,9 @@ def plan_C04(ctx):
     ctx.explore(dict(mode="reset", props=["C04"], cfgs=[mk("contacts", ccap=c) for c in (1, 2, 3)] + [mk("headersb", hcap=2, ccap=2)],
                      atoms=ATOMS["contacts"], maxlen=4 if ctx.quick else 5,
                      extra=dict(probes=[B("<sip:a@b>, <sip:c@d>;expires=3\r\nX"), B("m: <sip:a@b>, <sip:c@d>\r\n\r\n")])), "contact list reset histories, sane")
+    # isolation at call-interleaving granularity: TLC enumerates every interleaving of the chunked calls of two objects (MC_Stream2,
+    # invariant Isolated on the model); each is executed on two real objects and compared with their solo runs
+    ctx.tlc("MC_Stream2", "MC_Stream2.cfg", workers=8, min_records=100)
     # isolation: independent calls from 16 goroutines vs the same calls alone
     ctx.explore(dict(mode="concurrent", props=["C04"], cfgs=msg_cfgs(ctx.seed), inputs_file=f1), "independent calls run concurrently", count_as_traces=False)
     cleanup(ctx)
